@@ -14,7 +14,7 @@ Requests (one S-expression list per line; see Core/Types/Codec.lean for `<type>`
                                               last `unify`), which it extends   → ok <id> <new entries> | fuel-out
   (unify-old <param id> <arg id>)             the rule before fix 8f4b36d      → same
   (call <rules> <param id> <result id> <arg id>)  call guard under a rule set  → accept <result id> <new entries> | reject | fuel-out
-       <rules> ::= cur | old | strict-cycle | old-merge   (`cur` = the code as it is; the others
+       <rules> ::= cur | old | strict-cycle | old-merge | shared-names   (`cur` = the code as it is; the others
        are the alternatives of `QM.Soundness.Rules`, used to classify findings). The table
        extended by the guard is kept as the *scratch* table:
   (inh-scratch <type id> <value>)             `inh` against the scratch table  → true | false | fuel-out
@@ -46,6 +46,7 @@ def rulesOfSx : Sx → Option Rules
   | .atom "old" => some Rules.beforeF6
   | .atom "strict-cycle" => some { cycle := .strict }
   | .atom "old-merge" => some Rules.beforeMergeFix
+  | .atom "shared-names" => some Rules.sharedNames
   | _ => none
 
 def guardFuel (T : Table) : Nat := 4 * (T.types.length + T.tuples.length) + 64
